@@ -8,6 +8,7 @@ import (
 	"context"
 	"fmt"
 	"io"
+	"sync"
 	"sync/atomic"
 
 	"github.com/cespare/xxhash/v2"
@@ -106,6 +107,29 @@ func rawChunk(data []byte, hash bool) *storepb.Chunk {
 	return c
 }
 
+// uniqData returns the (shared, never written) bytes of the unique raw chunk id.
+var uniqCache sync.Map
+
+func uniqData(id int) []byte {
+	if d, ok := uniqCache.Load(id); ok {
+		return d.([]byte)
+	}
+	lo := int64(1000 + 10*id)
+	d, _ := uniqCache.LoadOrStore(id, xorData(lo, lo+9, float64(id)))
+	return d.([]byte)
+}
+
+// identityOfID is chunkIdentity(mkChunk(id)), memoised.
+var identityCache sync.Map
+
+func identityOfID(id int) string {
+	if s, ok := identityCache.Load(id); ok {
+		return s.(string)
+	}
+	s, _ := identityCache.LoadOrStore(id, chunkIdentity(mkChunk(id)))
+	return s.(string)
+}
+
 // mkChunk builds a fresh AggrChunk for a chunk id (the byte slices are shared and never written).
 func mkChunk(id int) storepb.AggrChunk {
 	switch {
@@ -123,7 +147,7 @@ func mkChunk(id int) storepb.AggrChunk {
 		return storepb.AggrChunk{MinTime: 0, MaxTime: 10, Count: rawChunk(dataCnt, false), Sum: rawChunk(dataSum2, false)}
 	case id >= ChUniq:
 		lo := int64(1000 + 10*id)
-		return storepb.AggrChunk{MinTime: lo, MaxTime: lo + 9, Raw: rawChunk(xorData(lo, lo+9, float64(id)), false)}
+		return storepb.AggrChunk{MinTime: lo, MaxTime: lo + 9, Raw: rawChunk(uniqData(id), false)}
 	}
 	panic(fmt.Sprintf("HARNESS-ERROR unknown chunk id %d", id))
 }
